@@ -702,12 +702,13 @@ class PreferredSrcSRS(object):
     def preferred_src(self, target, available_src):
         if not available_src:
             raise ValueError("no available src SRS")
+        # return the SRS from available_src: equal SRS can have different codes (EPSG:3857/900913)
         if target in available_src:
-            return target
+            return available_src[available_src.index(target)]
         if target in self.target_proj:
             for preferred in self.target_proj[target]:
                 if preferred in available_src:
-                    return preferred
+                    return available_src[available_src.index(preferred)]
 
         for avail in available_src:
             if avail.is_latlong == target.is_latlong:
